@@ -228,6 +228,17 @@ func (p *Path) assertPC(t *Term) {
 	}
 }
 
+// forkBoolQuiet: true only when the condition is already implied by the path condition (no fork, no log).
+func (p *Path) forkBoolQuiet(c *Term) bool {
+	if c.c {
+		return c.u != 0
+	}
+	if p.S == nil || p.side != nil {
+		return false
+	}
+	return p.S.CheckAssuming(p.tb.Not(c).s) == Unsat
+}
+
 func (p *Path) isKnown(s string) bool {
 	if p.knownTrue[s] {
 		return true
